@@ -21,6 +21,24 @@ static char verif_getdata(void *srpc, TsrpcReceivedData *rd, unsigned _supla_int
 #include <supla_esp_countdown_timer.h>
 #include <uptime.h>
 
+/* ------------------------------------------------------------ uptime control (C05) */
+extern struct { uint32 cycles; uint32 last_system_time; ETSTimer timer; } usermain_uptime;
+static void set_uptime_sec(unsigned long long sec) {
+  unsigned long long usec = sec * 1000000ull + 123;
+  usermain_uptime.cycles = (uint32)(usec / 0xffffffffull);
+  uint32 time = (uint32)(usec % 0xffffffffull);
+  usermain_uptime.last_system_time = time;
+  sdk_boot_cnt = time - (uint32)sdk_now_us;
+}
+
+/* ------------------------------------------------------------ ping bookkeeping (C05 scenarios) */
+static int ping_pending = 0;
+static void sent_hook(const uint8_t *p, int len, int result) {
+  /* a frame starts with SUPLA, version, rr_id, call_id: call 40 = PING_SERVER */
+  for (int i = 0; result == 0 && p && i + 23 <= len; i++)
+    if (!memcmp(p + i, "SUPLA", 5) && p[i + 10] == 40 && p[i + 11] == 0 && p[i + 12] == 0 && p[i + 13] == 0) ping_pending = 1;
+}
+
 /* ------------------------------------------------------------ snapshots */
 #define NSLOT 400
 static long long snap_prev[NSLOT];
@@ -172,6 +190,10 @@ static void device_init(int registered) {
   supla_esp_devconn_init();
   if (registered >= 0) {
     devconn->started = 1;
+    /* as supla_esp_devconn_start(): the 1 s keep-alive timer */
+    os_timer_disarm(&devconn->supla_devconn_timer1);
+    os_timer_setfn(&devconn->supla_devconn_timer1, (os_timer_func_t *)supla_esp_devconn_timer1_cb, NULL);
+    os_timer_arm(&devconn->supla_devconn_timer1, 1000, 1);
     supla_esp_devconn_connect_cb(NULL); /* supla_esp_srpc_init() */
     devconn->registered = registered;
     devconn->server_activity_timeout = ACTIVITY_TIMEOUT;
@@ -186,6 +208,7 @@ int main(void) {
   static unsigned char frame[70000];
   sdk_log_echo = 1;
   sdk_restart_armed = 1;
+  sdk_sent_hook = sent_hook;
   board_preset("relay2", 0);
   int inited = 0;
   while (ops_next()) {
@@ -262,6 +285,43 @@ int main(void) {
       } else if (!strcmp(op, "inflags") && ops_ntok == 3) { /* before init: flags of board input i */
         int i = atoi(ops_tok[1]);
         if (i >= 0 && i < 7) fw_board.inputs[i].flags = atoi(ops_tok[2]);
+      } else if (!strcmp(op, "t1") && ops_ntok == 5) { /* T now last_sent last_response */
+        if (!devconn->srpc) { supla_esp_devconn_connect_cb(NULL); }
+        devconn->registered = 1;
+        devconn->server_activity_timeout = atoi(ops_tok[1]);
+        set_uptime_sec(strtoull(ops_tok[2], 0, 10));
+        devconn->last_sent = (unsigned)strtoull(ops_tok[3], 0, 10);
+        devconn->last_response = (unsigned)strtoull(ops_tok[4], 0, 10);
+        int before = srpc_out_queue_item_count(devconn->srpc);
+        sdk_quiet_gpio = 1;
+        supla_esp_devconn_timer1_cb(NULL);
+        sdk_quiet_gpio = 0;
+        if (!devconn->srpc) sdk_out("DECISION reconnect");
+        else if (srpc_out_queue_item_count(devconn->srpc) > before) sdk_out("DECISION ping");
+        else sdk_out("DECISION none");
+        if (devconn->srpc) { for (int t = 0; t < 4; t++) supla_esp_devconn_iterate(NULL); }
+      } else if (!strcmp(op, "wd") && ops_ntok == 5) { /* T now last_response next_challenge */
+        if (!devconn->srpc) { supla_esp_devconn_connect_cb(NULL); }
+        devconn->registered = 1;
+        devconn->server_activity_timeout = atoi(ops_tok[1]);
+        set_uptime_sec(strtoull(ops_tok[2], 0, 10));
+        devconn->last_response = (unsigned)strtoull(ops_tok[3], 0, 10);
+        devconn->next_wd_soft_timeout_challenge = (unsigned)strtoull(ops_tok[4], 0, 10);
+        sdk_quiet_gpio = 1;
+        supla_esp_devconn_watchdog_cb(NULL);
+        sdk_quiet_gpio = 0;
+        sdk_out(devconn->srpc ? "DECISION none" : "DECISION reconnect");
+      } else if (!strcmp(op, "pingreply")) { /* the server answers a ping that reached the wire */
+        sdk_sent_hook = sent_hook;
+        if (ping_pending && devconn->srpc) {
+          ping_pending = 0;
+          unsigned char f[64]; unsigned rr = 7777, call = 50, ds = 16; size_t k = 0;
+          memcpy(f, "SUPLA", 5); k = 5; f[k++] = SUPLA_PROTO_VERSION;
+          memcpy(f + k, &rr, 4); k += 4; memcpy(f + k, &call, 4); k += 4; memcpy(f + k, &ds, 4); k += 4;
+          memset(f + k, 0, 16); k += 16; memcpy(f + k, "SUPLA", 5); k += 5;
+          sdk_out("PINGREPLY");
+          supla_esp_devconn_recv_cb(NULL, (char *)f, (unsigned short)k);
+        }
       } else if (!strcmp(op, "rslog") && ops_ntok == 2) {
         fw_hook_rs_log = atoi(ops_tok[1]);
         for (int i = 0; i < RS_MAX_COUNT; i++)
@@ -275,6 +335,10 @@ int main(void) {
         sdk_out("BADOP");
       }
       if (inited && !sdk_dead) snapshot(1);
+    } else if (!strcmp(ops_tok[0], "wd")) {
+      sdk_out("DECISION restart");
+      sdk_dead = 0; /* decision probes continue after the (simulated) restart */
+      sdk_quiet_gpio = 0;
     }
     ops_done();
   }
